@@ -83,7 +83,7 @@ typedef struct rq {
 	nng_aio    *saio, *raio;
 	int         s_ncb, s_res, ncb, res;
 	int64_t     t_start, t_cb;
-	uint8_t     rbody[64];
+	uint8_t     rbody[400];
 	size_t      rlen;
 	int         arrived; // times seen by the replier
 } rq;
@@ -126,16 +126,28 @@ typedef struct ccfg {
 } ccfg;
 static ccfg *CC[2];
 static int   NCC[2];
+// configurations of the schedule exploration (window around send..reply)
+static ccfg CS[] = {
+	{ 1, { 8, 8 }, 0 },
+	{ 1, { 8, 8 }, 1 },
+	{ 2, { 2, 2, 2 }, 0 },
+};
+static int NCS = 3;
 
 #define RECV_TMO 200
 
 static void
 run_chain(void *arg)
 {
-	int        fi = (int) (intptr_t) arg;
-	const fam *f  = &FAM[fi];
-	int        ci = vs_choose(VK_ENV, NCC[fi]);
-	ccfg      *c  = &CC[fi][ci];
+	int        fi    = (int) (intptr_t) arg & 1;
+	int        sched = ((int) (intptr_t) arg >> 4) & 1;
+	const fam *f     = &FAM[fi];
+	ccfg      *c;
+	if (sched) {
+		c = &CS[vs_choose(VK_ENV, NCS)];
+	} else {
+		c = &CC[fi][vs_choose(VK_ENV, NCC[fi])];
+	}
 	int        k  = c->k;
 	char       url[40], desc[160];
 	int        o = snprintf(desc, sizeof(desc), "%s k=%d %s ttl=", f->name, k,
@@ -189,132 +201,169 @@ run_chain(void *arg)
 		}
 	vs_settle();
 
-	// bodies that look like backtrace words at their start
-	static rq R[2];
+	// round 1: bodies that look like backtrace words at their start;
+	// round 2: a 300 byte body and an empty one
+	static rq      R[2];
+	static uint8_t big[300];
+	for (size_t i = 0; i < sizeof(big); i++)
+		big[i] = (uint8_t) (0xff - (i * 7) % 251);
 	memset(R, 0, sizeof(R));
-	R[0].tag    = "\x81\x00\x00\x01"
-	              "A-body";
-	R[0].taglen = 10;
-	R[1].tag    = "\x00\x00\x00\x02"
-	              "B";
-	R[1].taglen = 5;
 	for (int j = 0; j < 2; j++) {
-		rq      *r = &R[j];
-		nng_msg *m;
-		VH_OK(nng_aio_alloc(&r->saio, rq_send_cb, r));
-		VH_OK(nng_aio_alloc(&r->raio, rq_recv_cb, r));
-		VH_OK(nng_msg_alloc(&m, 0));
-		VH_OK(nng_msg_append(m, r->tag, r->taglen));
-		nng_aio_set_msg(r->saio, m);
-		nng_aio_set_timeout(r->raio, RECV_TMO);
-		r->t_start = vs_now();
-		if (c->ctxs) {
-			nng_ctx_send(cx[j], r->saio);
-			vs_settle();
-			nng_ctx_recv(cx[j], r->raio);
-		} else {
-			nng_socket_send(front[j], r->saio);
-			vs_settle();
-			nng_socket_recv(front[j], r->raio);
-		}
-		vs_settle();
+		VH_OK(nng_aio_alloc(&R[j].saio, rq_send_cb, &R[j]));
+		VH_OK(nng_aio_alloc(&R[j].raio, rq_recv_cb, &R[j]));
 	}
-	// the replier / respondent
-	int served = 0;
-	for (int round = 0; round < 12 && served < 2; round++) {
-		nng_msg *m  = NULL;
-		int      rv = nng_recvmsg(back, &m, NNG_FLAG_NONBLOCK);
-		if (rv == NNG_EAGAIN) {
-			vs_sleep(5);
-			vs_settle();
-			continue;
-		}
-		if (rv != 0)
-			vs_fail("harness:back-recv", "[%s] recv -> %d", desc, rv);
-		rq *r = NULL;
-		for (int j = 0; j < 2; j++)
-			if (nng_msg_len(m) == R[j].taglen &&
-			    memcmp(nng_msg_body(m), R[j].tag, R[j].taglen) == 0)
-				r = &R[j];
-		if (r == NULL)
-			vs_fail("C13:chain:body-changed",
-			    "[%s] request arrived with body %s", desc,
-			    vh_hex(nng_msg_body(m), nng_msg_len(m)));
-		if (r->arrived++)
-			vs_fail("C13:chain:duplicate", "[%s] request %d arrived twice", desc,
-			    (int) (r - R));
-		if (must_drop)
-			vs_fail("C13:chain:ttl-exceeded-delivered",
-			    "[%s] a request that crossed %d devices was delivered", desc, k);
-		VH_OK(nng_msg_append(m, "-re", 3));
-		rv = nng_sendmsg(back, m, 0);
-		if (rv != 0)
-			vs_fail("harness:back-send", "[%s] reply send -> %d", desc, rv);
-		vs_settle();
-		served++;
-	}
-	// let the timed receives expire
-	while (vs_now() < R[0].t_start + RECV_TMO + 30) {
-		vs_sleep(10);
-		vs_settle();
-	}
-	// a late extra delivery at the back?
-	{
-		nng_msg *m = NULL;
-		if (nng_recvmsg(back, &m, NNG_FLAG_NONBLOCK) == 0) {
-			nng_msg_free(m);
-			vs_fail("C13:chain:duplicate", "[%s] a third message arrived", desc);
-		}
-	}
-	char out[80];
+	char out[120];
 	int  oo = snprintf(out, sizeof(out), "%s %s:", f->name,
 	     must_deliver ? "within" : must_drop ? "beyond" : "boundary");
-	for (int j = 0; j < 2; j++) {
-		rq *r = &R[j];
-		if (r->s_ncb != 1 || r->s_res != 0)
-			vs_fail("harness:front-send", "[%s] send %d: ncb %d res %d", desc, j,
-			    r->s_ncb, r->s_res);
-		if (r->ncb != 1)
-			vs_fail("C13:chain:receive-pending",
-			    "[%s] receive %d completed %d times within %d ms", desc, j,
-			    r->ncb, RECV_TMO + 30);
-		if (must_deliver && !r->arrived)
-			vs_fail("C13:chain:ttl-within-dropped",
-			    "[%s] request %d never reached the back socket", desc, j);
-		if (r->res == 0) {
-			// whose reply is it?
-			int whose = -1;
-			for (int q = 0; q < 2; q++)
-				if (r->rlen == R[q].taglen + 3 &&
-				    memcmp(r->rbody, R[q].tag, R[q].taglen) == 0 &&
-				    memcmp(r->rbody + R[q].taglen, "-re", 3) == 0)
-					whose = q;
-			if (whose < 0)
-				vs_fail("C13:chain:body-changed",
-				    "[%s] requester %d received body %s", desc, j,
-				    vh_hex(r->rbody, r->rlen < 64 ? r->rlen : 64));
-			if (whose != j)
-				vs_fail("C13:chain:wrong-requester",
-				    "[%s] requester %d received the reply for requester %d",
-				    desc, j, whose);
-			if (!r->arrived)
-				vs_fail("C13:chain:wrong-requester",
-				    "[%s] requester %d got a reply nobody sent", desc, j);
-		} else if (r->res == NNG_ETIMEDOUT) {
-			if (r->arrived)
-				vs_fail("C13:chain:lost",
-				    "[%s] request %d was answered but the reply never came "
-				    "back",
-				    desc, j);
-			if (r->t_cb < r->t_start + RECV_TMO)
-				vs_fail("C13:chain:early-timeout", "[%s] timeout at +%lld",
-				    desc, (long long) (r->t_cb - r->t_start));
-		} else {
-			vs_fail("C13:chain:bad-result", "[%s] receive %d -> %d (%s)", desc,
-			    j, r->res, nng_strerror(r->res));
+	int rounds = sched ? 1 : 2;
+	for (int rd = 0; rd < rounds; rd++) {
+		for (int j = 0; j < 2; j++) {
+			rq *r  = &R[j];
+			r->ncb = r->s_ncb = r->arrived = 0;
+			r->res = r->s_res = -1;
+			r->rlen           = 0;
 		}
-		oo += snprintf(out + oo, sizeof(out) - (size_t) oo, " %s",
-		    r->res == 0 ? "reply" : "timeout");
+		if (rd == 0) {
+			R[0].tag    = "\x81\x00\x00\x01"
+			              "A-body";
+			R[0].taglen = 10;
+			R[1].tag    = "\x00\x00\x00\x02"
+			              "B";
+			R[1].taglen = 5;
+		} else {
+			R[0].tag    = (const char *) big;
+			R[0].taglen = sizeof(big);
+			R[1].tag    = "";
+			R[1].taglen = 0;
+		}
+		if (sched)
+			vs_window(1);
+		for (int j = 0; j < 2; j++) {
+			rq      *r = &R[j];
+			nng_msg *m;
+			VH_OK(nng_msg_alloc(&m, 0));
+			VH_OK(nng_msg_append(m, r->tag, r->taglen));
+			nng_aio_set_msg(r->saio, m);
+			nng_aio_set_timeout(r->raio, RECV_TMO);
+			r->t_start = vs_now();
+			if (c->ctxs) {
+				nng_ctx_send(cx[j], r->saio);
+				if (!sched)
+					vs_settle();
+				nng_ctx_recv(cx[j], r->raio);
+			} else {
+				nng_socket_send(front[j], r->saio);
+				if (!sched)
+					vs_settle();
+				nng_socket_recv(front[j], r->raio);
+			}
+			if (!sched)
+				vs_settle();
+		}
+		// the replier / respondent
+		int served = 0;
+		for (int round = 0; round < 12 && served < 2; round++) {
+			nng_msg *m  = NULL;
+			int      rv = nng_recvmsg(back, &m, NNG_FLAG_NONBLOCK);
+			if (rv == NNG_EAGAIN) {
+				vs_window(0);
+				vs_sleep(5);
+				vs_settle();
+				continue;
+			}
+			if (rv != 0)
+				vs_fail("harness:back-recv", "[%s] recv -> %d", desc, rv);
+			rq *r = NULL;
+			for (int j = 0; j < 2; j++)
+				if (nng_msg_len(m) == R[j].taglen &&
+				    memcmp(nng_msg_body(m), R[j].tag, R[j].taglen) == 0)
+					r = &R[j];
+			if (r == NULL)
+				vs_fail("C13:chain:body-changed",
+				    "[%s] round %d: request arrived with body %s", desc, rd,
+				    vh_hex(nng_msg_body(m), nng_msg_len(m)));
+			if (r->arrived++)
+				vs_fail("C13:chain:duplicate",
+				    "[%s] round %d: request %d arrived twice", desc, rd,
+				    (int) (r - R));
+			if (must_drop)
+				vs_fail("C13:chain:ttl-exceeded-delivered",
+				    "[%s] a request that crossed %d devices was delivered", desc,
+				    k);
+			VH_OK(nng_msg_append(m, "-re", 3));
+			rv = nng_sendmsg(back, m, 0);
+			if (rv != 0)
+				vs_fail("harness:back-send", "[%s] reply send -> %d", desc, rv);
+			if (!sched)
+				vs_settle();
+			served++;
+		}
+		vs_window(0);
+		vs_settle();
+		// let the timed receives expire (or stop early when all is answered)
+		while (vs_now() < R[0].t_start + RECV_TMO + 30 &&
+		    !(R[0].ncb && R[1].ncb)) {
+			vs_sleep(10);
+			vs_settle();
+		}
+		// a late extra delivery at the back?
+		{
+			nng_msg *m = NULL;
+			if (nng_recvmsg(back, &m, NNG_FLAG_NONBLOCK) == 0) {
+				nng_msg_free(m);
+				vs_fail("C13:chain:duplicate", "[%s] round %d: a third message "
+				                               "arrived", desc, rd);
+			}
+		}
+		for (int j = 0; j < 2; j++) {
+			rq *r = &R[j];
+			if (r->s_ncb != 1 || r->s_res != 0)
+				vs_fail("harness:front-send", "[%s] send %d: ncb %d res %d", desc,
+				    j, r->s_ncb, r->s_res);
+			if (r->ncb != 1)
+				vs_fail("C13:chain:receive-pending",
+				    "[%s] round %d: receive %d completed %d times within %d ms",
+				    desc, rd, j, r->ncb, RECV_TMO + 30);
+			if (must_deliver && !r->arrived)
+				vs_fail("C13:chain:ttl-within-dropped",
+				    "[%s] round %d: request %d never reached the back socket",
+				    desc, rd, j);
+			if (r->res == 0) {
+				// whose reply is it?
+				int whose = -1;
+				for (int q = 0; q < 2; q++)
+					if (r->rlen == R[q].taglen + 3 &&
+					    memcmp(r->rbody, R[q].tag, R[q].taglen) == 0 &&
+					    memcmp(r->rbody + R[q].taglen, "-re", 3) == 0)
+						whose = q;
+				if (whose < 0)
+					vs_fail("C13:chain:body-changed",
+					    "[%s] round %d: requester %d received body %s", desc, rd,
+					    j, vh_hex(r->rbody, r->rlen < 64 ? r->rlen : 64));
+				if (whose != j)
+					vs_fail("C13:chain:wrong-requester",
+					    "[%s] round %d: requester %d received the reply for "
+					    "requester %d",
+					    desc, rd, j, whose);
+				if (!r->arrived)
+					vs_fail("C13:chain:wrong-requester",
+					    "[%s] requester %d got a reply nobody sent", desc, j);
+			} else if (r->res == NNG_ETIMEDOUT) {
+				if (r->arrived)
+					vs_fail("C13:chain:lost",
+					    "[%s] round %d: request %d was answered but the reply "
+					    "never came back",
+					    desc, rd, j);
+				if (r->t_cb < r->t_start + RECV_TMO)
+					vs_fail("C13:chain:early-timeout", "[%s] timeout at +%lld",
+					    desc, (long long) (r->t_cb - r->t_start));
+			} else {
+				vs_fail("C13:chain:bad-result", "[%s] receive %d -> %d (%s)",
+				    desc, j, r->res, nng_strerror(r->res));
+			}
+			oo += snprintf(out + oo, sizeof(out) - (size_t) oo, " %s",
+			    r->res == 0 ? "reply" : "timeout");
+		}
 	}
 	vs_log("%s -> %s", desc, out);
 	vs_outcome("%s", out);
@@ -363,9 +412,21 @@ mk_chains(int T)
 					add_chain(fi, k, ttl, cx);
 				}
 		}
+		// one receiving socket with its own limit, every other one permissive:
+		// isolates the hop check of each socket type at each position
+		int pk = T ? 5 : 4, pv = T ? 15 : 6;
+		for (int k = 0; k <= pk; k++)
+			for (int p = 0; p <= k; p++)
+				for (int v = 1; v <= pv; v++) {
+					int ttl[MAXDEV + 1];
+					for (int i = 0; i <= k; i++)
+						ttl[i] = 15;
+					ttl[p] = v;
+					add_chain(fi, k, ttl, (k + p + v) & 1);
+				}
 		if (!T)
 			continue;
-		// one hop with its own limit (1..15), all others at the default 8
+		// ... and with all others at the default 8
 		for (int k = 0; k <= 3; k++)
 			for (int p = 0; p <= k; p++)
 				for (int v = 1; v <= 15; v++) {
@@ -381,15 +442,16 @@ mk_chains(int T)
 // ---- scenario 2: loops -----------------------------------------------------------------
 // topologies: 0 two devices, tap on the closing link; 1 two devices, all inproc;
 //             2 one device dialing itself, tap; 3 one device dialing itself, inproc
-static const int LTTL[] = { 1, 2, 3, 8, 15 };
+static int LTTL[15] = { 1, 2, 3, 8, 15 };
+static int NLTTL  = 5;
 
 static void
 run_loop(void *arg)
 {
 	int        fi   = (int) (intptr_t) arg;
 	const fam *f    = &FAM[fi];
-	int        pick = vs_choose(VK_ENV, 4 * 5);
-	int        topo = pick / 5, ttl = LTTL[pick % 5];
+	int        pick = vs_choose(VK_ENV, 4 * NLTTL);
+	int        topo = pick / NLTTL, ttl = LTTL[pick % NLTTL];
 	int        ndev = topo < 2 ? 2 : 1, tap = (topo == 0 || topo == 2);
 	char       desc[80];
 	snprintf(desc, sizeof(desc), "%s loop topo=%d ttl=%d", f->name, topo, ttl);
@@ -528,11 +590,12 @@ run_loop(void *arg)
 }
 
 // ---- scenario 3: crafted backtraces --------------------------------------------------------
-enum { T_REP, T_XREP, T_RESP, T_XRESP, T_XREQ, T_XSURV, T_N };
+enum { T_REP, T_XREP, T_RESP, T_XRESP, T_XREQ, T_XSURV, T_DEV_REP, T_DEV_RESP, T_N };
 static const char *TN[] = { "rep", "xrep", "respondent", "xrespondent", "xreq",
-	"xsurveyor" };
-static const int BTTL[] = { 1, 8, 15 };
-static const char *BODY[] = { "", "hi", "body-6" };
+	"xsurveyor", "device+rep", "device+respondent" };
+static int         BTTL[15] = { 1, 8, 15 };
+static int         NBTTL   = 3;
+static const char *BODY[] = { "", "hi", "body-6", "\x80\x01\x02" };
 
 static int
 new_raw(nng_socket s, uint16_t proto, nng_listener *l, int *first)
@@ -598,29 +661,49 @@ static void
 run_bt(void *arg)
 {
 	(void) arg;
-	int pick = vs_choose(VK_ENV, T_N * 3 * 2 * 3);
+	int pick = vs_choose(VK_ENV, T_N * NBTTL * 2 * 4);
 	int tgt  = pick % T_N;
 	pick /= T_N;
-	int ttl = BTTL[pick % 3];
-	pick /= 3;
+	int ttl = BTTL[pick % NBTTL];
+	pick /= NBTTL;
 	int term = pick % 2;
 	pick /= 2;
 	const char *bd  = BODY[pick];
 	size_t      bdl = strlen(bd);
 	int  raw = (tgt == T_XREP || tgt == T_XRESP || tgt == T_XREQ || tgt == T_XSURV);
 	int  has_pipe_word = (tgt == T_XREP || tgt == T_XRESP);
-	int  ttl_applies   = tgt <= T_XRESP;
-	int  can_reply     = tgt <= T_XRESP;
-	uint16_t peer = (tgt == T_REP || tgt == T_XREP) ? SP_REQ
-	    : (tgt == T_RESP || tgt == T_XRESP)         ? SP_SURVEYOR
-	    : tgt == T_XREQ                              ? SP_REP
+	int  viadev        = (tgt == T_DEV_REP || tgt == T_DEV_RESP);
+	int  ttl_applies   = tgt <= T_XRESP || viadev;
+	int  can_reply     = tgt <= T_XRESP || viadev;
+	uint16_t peer = (tgt == T_REP || tgt == T_XREP || tgt == T_DEV_REP) ? SP_REQ
+	    : (tgt == T_RESP || tgt == T_XRESP || tgt == T_DEV_RESP)        ? SP_SURVEYOR
+	    : tgt == T_XREQ                                                  ? SP_REP
 	                                                 : SP_RESPONDENT;
 	char desc[100];
 	snprintf(desc, sizeof(desc), "%s ttl=%d %s body=%zu", TN[tgt], ttl,
 	    term ? "terminated" : "unterminated", bdl);
+	g_teardown = 0;
 	vh_init(0);
-	nng_socket s;
+	nng_socket   s;  // where the messages come out (application side)
+	nng_socket   ws; // where the raw peers connect
+	nng_listener L;
+	int          first = 1;
 	switch (tgt) {
+	case T_DEV_REP:
+	case T_DEV_RESP: {
+		// raw peer -> device(raw rep, raw req) -> cooked REP
+		const fam *f = &FAM[tgt == T_DEV_REP ? 0 : 1];
+		VH_OK(f->back(&s));
+		VH_OK(nng_listen(s, "inproc://bt-back", NULL, 0));
+		dev_start(&D[0], f, ttl);
+		VH_OK(nng_dial(D[0].out, "inproc://bt-back", NULL, 0));
+		// the device will own its sockets: create the raw seat first
+		VH_OK(nng_listener_create(&L, D[0].in, "socket://"));
+		VH_OK(nng_listener_start(L, 0));
+		first = 0;
+		nng_device_aio(D[0].aio, D[0].in, D[0].out);
+		vs_settle();
+	} break;
 	case T_REP:
 		VH_OK(nng_rep0_open(&s));
 		break;
@@ -641,14 +724,17 @@ run_bt(void *arg)
 		break;
 	}
 	VH_OK(nng_socket_set_int(s, NNG_OPT_MAXTTL, ttl));
+	ws = viadev ? D[0].in : s;
 	VH_OK(nng_aio_alloc(&t_aio, t_cb, NULL));
-	nng_listener L;
-	int          first = 1;
 	int  delivered = 0, dropped = 0, kicked = 0, boundary_deliv = 0;
+	// an idle, well-behaved connection that must never see anything
+	int by = new_raw(ws, peer, &L, &first);
+	if (by < 0)
+		vs_fail("harness:setup", "[%s] bystander could not connect", desc);
 	for (int n = 0; n <= 21; n++) {
 		// n == 21 is the well-behaved control connection
 		int control = (n == 21);
-		int fd      = new_raw(s, peer, &L, &first);
+		int fd      = new_raw(ws, peer, &L, &first);
 		if (fd < 0)
 			vs_fail(control ? "C13:bt:control-connection-broken"
 			                : "harness:setup",
@@ -673,6 +759,10 @@ run_bt(void *arg)
 		if (!tm) {
 			must_not = 1;
 			must     = 0;
+		} else if (viadev) {
+			// the device's socket sees m words, the cooked one m + 1
+			must     = m + 1 <= ttl;
+			must_not = m >= ttl + 1;
 		} else if (ttl_applies) {
 			must     = m <= ttl;
 			must_not = m >= ttl + 2;
@@ -763,7 +853,9 @@ run_bt(void *arg)
 				vp_send(fd, g, 8, NULL, 0);
 				vs_settle();
 				if (!t_recv(s, hdr, &hl, body, &bl, NULL)) {
-					if (!vp_is_eof(fd))
+					// (behind a device with TTL 1 even a plain request is at
+					// the hop boundary and may be discarded)
+					if (!vp_is_eof(fd) && !(viadev && ttl < 2))
 						vs_fail("C13:bt:connection-wedged",
 						    "[%s] n=%d: the bad frame was dropped, the "
 						    "connection stayed open, but a good request "
@@ -800,17 +892,37 @@ run_bt(void *arg)
 			vs_settle();
 		}
 	}
+	{
+		vp_rd         *rd = calloc(1, sizeof(vp_rd));
+		const uint8_t *p;
+		size_t         len;
+		vs_settle();
+		int k = vp_next_frame(by, rd, &p, &len);
+		if (k == 1)
+			vs_fail("C13:bt:misrouted",
+			    "[%s] an idle connection received the frame %s", desc,
+			    vh_hex(p, len));
+		if (k < 0)
+			vs_fail("C13:bt:bystander-disconnected",
+			    "[%s] an idle well-behaved connection was closed", desc);
+		free(rd);
+		close(by);
+	}
 	vs_log("%s: delivered=%d (at boundary %d) dropped=%d disconnected=%d", desc,
 	    delivered, boundary_deliv, dropped, kicked);
 	vs_outcome("%s t%d %s b%zu: d%d b%d drop%d kick%d", TN[tgt], ttl,
 	    term ? "T" : "U", bdl, delivered, boundary_deliv, dropped, kicked);
 	nng_aio_free(t_aio);
+	g_teardown = 1;
+	if (viadev)
+		dev_stop(&D[0]);
 	nng_socket_close(s);
 	vh_fini();
 }
 
 static void
-explore(const char *name, void (*fn)(void *), void *arg)
+explore_b(const char *name, void (*fn)(void *), void *arg, int preempt, int sw,
+    int total, double deadline)
 {
 	vx_cfg c;
 	memset(&c, 0, sizeof(c));
@@ -820,10 +932,18 @@ explore(const char *name, void (*fn)(void *), void *arg)
 	c.arg      = arg;
 	for (int i = 0; i < VB_NB; i++)
 		c.budget[i] = 0;
-	c.budget[VB_ENV] = -1;
-	c.total          = 0;
-	c.watchdog_s     = 40;
+	c.budget[VB_PREEMPT] = preempt;
+	c.budget[VB_SWITCH]  = sw;
+	c.budget[VB_ENV]     = -1;
+	c.total              = total;
+	c.watchdog_s         = 40;
+	c.deadline_s         = deadline;
 	vx_explore(&c, NULL);
+}
+static void
+explore(const char *name, void (*fn)(void *), void *arg)
+{
+	explore_b(name, fn, arg, 0, 0, 0, 0);
 }
 
 int
@@ -832,21 +952,34 @@ main(int argc, char **argv)
 	vx_init(argc, argv, "C13");
 	int T = vx_is_thorough();
 	mk_chains(T);
+	if (T) {
+		NBTTL = NLTTL = 15;
+		for (int i = 0; i < 15; i++)
+			BTTL[i] = LTTL[i] = i + 1;
+	}
 	explore("chain-reqrep", run_chain, (void *) 0);
 	explore("chain-survey", run_chain, (void *) 1);
 	explore("loop-reqrep", run_loop, (void *) 0);
 	explore("loop-survey", run_loop, (void *) 1);
 	explore("backtrace", run_bt, NULL);
+	// thread interleavings of two concurrent requests through one/two devices
+	explore_b("chain-reqrep-sched", run_chain, (void *) (intptr_t) 0x10,
+	    T ? 2 : 1, T ? 3 : 2, T ? 3 : 2, T ? 400 : 25);
+	explore_b("chain-survey-sched", run_chain, (void *) (intptr_t) 0x11,
+	    T ? 2 : 1, T ? 3 : 2, T ? 3 : 2, T ? 400 : 25);
 	vx_note("chains",
 	    "reqrep %d, survey %d configurations: k in 0..TTL+2 (survey <= %d) x TTL "
-	    "%s x {2 sockets, 2 contexts}%s; must-deliver iff every i-th receiving "
+	    "%s x {2 sockets, 2 contexts} + one socket with its own TTL at every "
+	    "position%s; must-deliver iff every i-th receiving "
 	    "socket has TTL >= i, must-drop iff some has TTL <= i-2, else both accepted",
 	    NCC[0], NCC[1], T ? 5 : 3, T ? "{1,2,3,8,15}" : "{1,2,8}",
-	    T ? " + one hop with TTL 1..15 at every position of chains k<=3" : "");
+	    T ? " (TTL 1..15, chains k<=5, others 15 or 8)"
+	      : " (TTL 1..6, chains k<=4, others 15)");
 	vx_note("loops", "4 topologies (2-cycle / self-loop, raw tap / inproc) x TTL "
-	                 "{1,2,3,8,15} x 2 families; 500 virtual ms");
-	vx_note("backtraces", "6 targets x TTL {1,8,15} x {terminated,unterminated} x "
-	                      "body {0,2,6} bytes, each n = 0..20 words on a fresh raw "
-	                      "connection + control connection");
+	                 "%s x 2 families; 500 virtual ms", T ? "1..15" : "{1,2,3,8,15}");
+	vx_note("backtraces", "8 targets (rep xrep respondent xrespondent xreq xsurveyor device+rep device+respondent) x TTL %s x {terminated,unterminated} x body "
+	                      "{0,2,6 bytes, 3 bytes starting 0x80}, each n = 0..20 "
+	                      "words on a fresh raw connection + control connection",
+	    T ? "1..15" : "{1,8,15}");
 	return vx_finish();
 }
